@@ -42,6 +42,9 @@ def joinDots : List Char → Name
 /-- RFC 3596 §2.5: nibbles in reverse order, one per label, under `ip6.arpa.`. -/
 def arpaNameOf (a : IP) : Name := joinDots ((nibbles a).reverse.map hexChar) ++ ip6ArpaSuffix ++ ['.']
 
+/-- uncompressed wire form of a label list (RFC 1035 §3.1): length octet + bytes per label, then 0. -/
+def wireOf (ls : List (List UInt8)) : List UInt8 := ls.flatMap (fun l => UInt8.ofNat l.length :: l) ++ [0]
+
 /-! ### shape lemmas -/
 
 theorem len4 (v : IP) (h : v.length = 4) : ∃ a b c d, v = [a, b, c, d] := by
@@ -231,7 +234,7 @@ def origOf (c : Cfg) (m : Down) : Down × Bool :=
   else (m, false)
 
 theorem writeMsg_trySynth (c : Cfg) (q : Query) (m : Down) (a : AResp) (h : dispatch c q m = .trySynth) :
-    writeMsg c q m a = synthesise c (origOf c m).1 (origOf c m).2 a := by
+    writeMsg c q m a = synthesise c q (origOf c m).1 (origOf c m).2 a := by
   unfold writeMsg origOf
   rw [h]
   simp only
@@ -256,18 +259,29 @@ theorem origOf_fields (c : Cfg) (m : Down) :
 
 theorem mem_synthAAAA (c : Cfg) (addrs : List RR) (ttl : Nat) (r : RR) :
     r ∈ synthAAAA c addrs ttl ↔
-      ∃ p ∈ c.prefixes, ∃ x ∈ addrs, x.ip.length = 4 ∧ c.shouldExcludeAOnPrefix x.ip p = false ∧
-        r = { kind := '6', ttl := ttl, owner := x.owner, ip := embedIPv4 p.net.ip p.net.bits x.ip } := by
+      ∃ p ∈ c.prefixes, ∃ x ∈ addrs, ∃ v4, to4 x.ip = some v4 ∧ c.shouldExcludeAOnPrefix v4 p = false ∧
+        r = { kind := '6', ttl := ttl, owner := x.owner, ip := embedIPv4 p.net.ip p.net.bits v4 } := by
   unfold synthAAAA
   simp only [List.mem_flatMap, List.mem_filterMap]
   constructor
   · rintro ⟨p, hp, x, hx, hr⟩
-    by_cases hl : x.ip.length = 4
-    · cases he : c.shouldExcludeAOnPrefix x.ip p <;> simp [hl, he] at hr
-      exact ⟨p, hp, x, hx, hl, he, hr.symm⟩
-    · simp [hl] at hr
-  · rintro ⟨p, hp, x, hx, hl, he, rfl⟩
+    cases hl : to4 x.ip with
+    | none => simp [hl] at hr
+    | some v4 =>
+      cases he : c.shouldExcludeAOnPrefix v4 p <;> simp [hl, he] at hr
+      exact ⟨p, hp, x, hx, v4, hl, he, hr.symm⟩
+  · rintro ⟨p, hp, x, hx, v4, hl, he, rfl⟩
     exact ⟨p, hp, x, hx, by simp [hl, he]⟩
+
+theorem to4_length (a v : IP) (h : to4 a = some v) (ha : a.length = 4 ∨ a.length = 16) : v.length = 4 := by
+  unfold to4 at h
+  by_cases h4 : a.length = 4
+  · simp [h4] at h; subst h; exact h4
+  · have h16 : a.length = 16 := by rcases ha with ha | ha; exact absurd ha h4; exact ha
+    simp only [h4, beq_iff_eq, if_false] at h
+    split at h
+    · simp only [Option.some.injEq] at h; subst h; simp [h16]
+    · cases h
 
 
 theorem chain_no6 (ans : List RR) : ∀ r ∈ chainOf ans, r.kind = '6' → False := by
@@ -287,10 +301,10 @@ theorem fallback_pass (orig : Down) (copied : Bool) (aq : Nat) (h : (fallbackRep
   cases copied <;> simp [fallbackReply, passReply] at h ⊢
 
 /-- a synthesised reply: its exact contents. -/
-theorem synthesise_synth (c : Cfg) (orig : Down) (copied : Bool) (a : AResp)
-    (h : (synthesise c orig copied a).kind = .synth) :
-    a.err = .none ∧ a.rcode = 0 ∧ (synthesise c orig copied a).ad = false ∧ (synthesise c orig copied a).rcode = 0 ∧
-    (synthesise c orig copied a).ans =
+theorem synthesise_synth (c : Cfg) (q : Query) (orig : Down) (copied : Bool) (a : AResp)
+    (h : (synthesise c q orig copied a).kind = .synth) :
+    a.err = .none ∧ a.rcode = 0 ∧ (synthesise c q orig copied a).ad = false ∧ (synthesise c q orig copied a).rcode = 0 ∧
+    (synthesise c q orig copied a).ans =
       ((chainOf a.ans).map fun r =>
         if r.ttl > synthTTL (negativeAAAATTL orig.soas) ((addrsOf a.ans).map (·.ttl))
         then { r with ttl := synthTTL (negativeAAAATTL orig.soas) ((addrsOf a.ans).map (·.ttl)) } else r) ++
@@ -313,11 +327,54 @@ theorem synthesise_synth (c : Cfg) (orig : Down) (copied : Bool) (a : AResp)
           simp
   all_goals (first | exact absurd h (fb _) | (simp at h; done))
 
+/-- the Authority / Additional sections of a synthesised reply. -/
+theorem synthesise_synth_sections (c : Cfg) (q : Query) (orig : Down) (copied : Bool) (a : AResp)
+    (h : (synthesise c q orig copied a).kind = .synth) :
+    (synthesise c q orig copied a).ns = copyExtraNoOPT a.ns ∧
+    (synthesise c q orig copied a).extra = appendOPTFrom orig (copyExtraNoOPT a.extra) := by
+  have fb := fun aq => (fallback_props orig copied aq).1
+  unfold synthesise at h ⊢
+  cases he : a.err <;> simp only [he] at h ⊢
+  case none =>
+    by_cases hr : (a.rcode != 0) = true
+    · simp [hr] at h
+    · simp only [hr] at h ⊢
+      by_cases he : (addrsOf a.ans).isEmpty = true
+      · simp [he] at h
+      · simp only [he] at h ⊢
+        by_cases hs : (synthAAAA c (addrsOf a.ans) (synthTTL (negativeAAAATTL orig.soas) ((addrsOf a.ans).map (·.ttl)))).isEmpty = true
+        · simp only [hs, if_true] at h
+          exact absurd h (fb 1)
+        · simp [hs]
+  all_goals (first | exact absurd h (fb _) | (simp at h; done))
+
+/-! ### names: miekg rendering of wire labels -/
+
+theorem presentLabels_append (a b : List (List UInt8)) :
+    presentLabels (a ++ b) = presentLabels a ++ presentLabels b := by
+  simp [presentLabels]
+
+/-- a rendered non-root name ends with the (unescaped) dot of its last label. -/
+theorem presentLabels_ends_with_dot (ls : List (List UInt8)) (h : ls ≠ []) :
+    ∃ x, presentLabels ls = x ++ ['.'] := by
+  obtain ⟨init, l, rfl⟩ : ∃ init l, ls = init ++ [l] := by
+    cases hd : ls.reverse with
+    | nil => simp at hd; exact absurd hd h
+    | cons l t =>
+      refine ⟨t.reverse, l, ?_⟩
+      have := congrArg List.reverse hd
+      simpa using this
+  refine ⟨presentLabels init ++ l.flatMap presentByte, ?_⟩
+  rw [presentLabels_append]
+  simp [presentLabels, presentLabel]
+
+theorem lower_append (x y : Name) : lower (x ++ y) = lower x ++ lower y := by simp [lower]
+
 /-- a pass-through out of `synthesise` is the unfiltered original. -/
-theorem synthesise_pass (c : Cfg) (orig : Down) (copied : Bool) (a : AResp)
-    (h : (synthesise c orig copied a).kind = .pass) :
-    copied = false ∧ (synthesise c orig copied a).ans = orig.ans ∧ (synthesise c orig copied a).ad = orig.ad ∧
-    (synthesise c orig copied a).rcode = orig.rcode := by
+theorem synthesise_pass (c : Cfg) (q : Query) (orig : Down) (copied : Bool) (a : AResp)
+    (h : (synthesise c q orig copied a).kind = .pass) :
+    copied = false ∧ (synthesise c q orig copied a).ans = orig.ans ∧ (synthesise c q orig copied a).ad = orig.ad ∧
+    (synthesise c q orig copied a).rcode = orig.rcode := by
   unfold synthesise at h ⊢
   cases he : a.err <;> simp only [he] at h ⊢
   case none =>
@@ -342,11 +399,11 @@ theorem origOf_not_copied (c : Cfg) (m : Down) (h : (origOf c m).2 = false) : (o
   · rfl
 
 /-- every outcome of `synthesise` other than a synthesised reply. -/
-theorem synthesise_other (c : Cfg) (orig : Down) (copied : Bool) (a : AResp)
-    (h : (synthesise c orig copied a).kind ≠ .synth) :
-    (synthesise c orig copied a).kind ≠ .ptr ∧
-    ((synthesise c orig copied a).kind ≠ .pass → (synthesise c orig copied a).ad = false) ∧
-    (∀ r ∈ (synthesise c orig copied a).ans, r.kind = '6' → r ∈ orig.ans) := by
+theorem synthesise_other (c : Cfg) (q : Query) (orig : Down) (copied : Bool) (a : AResp)
+    (h : (synthesise c q orig copied a).kind ≠ .synth) :
+    (synthesise c q orig copied a).kind ≠ .ptr ∧
+    ((synthesise c q orig copied a).kind ≠ .pass → (synthesise c q orig copied a).ad = false) ∧
+    (∀ r ∈ (synthesise c q orig copied a).ans, r.kind = '6' → r ∈ orig.ans) := by
   have fb : ∀ aq, (fallbackReply orig copied aq).kind ≠ .ptr ∧
       ((fallbackReply orig copied aq).kind ≠ .pass → (fallbackReply orig copied aq).ad = false) ∧
       (∀ r ∈ (fallbackReply orig copied aq).ans, r.kind = '6' → r ∈ orig.ans) := by
@@ -372,11 +429,11 @@ theorem synthesise_other (c : Cfg) (orig : Down) (copied : Bool) (a : AResp)
 
 /-- the four ways `WriteMsg` ends. -/
 theorem writeMsg_cases (c : Cfg) (q : Query) (m : Down) (a : AResp) :
-    (dispatch c q m = .trySynth ∧ writeMsg c q m a = synthesise c (origOf c m).1 (origOf c m).2 a) ∨
+    (dispatch c q m = .trySynth ∧ writeMsg c q m a = synthesise c q (origOf c m).1 (origOf c m).2 a) ∨
     writeMsg c q m a = passReply m ∨
-    writeMsg c q m a = { kind := .workFail, rcode := 2 } ∨
+    writeMsg c q m a = { kind := .workFail, rcode := 2, extra := q.extraRRs } ∨
     writeMsg c q m a = { kind := .filteredKept, rcode := m.rcode, ad := false, ede4 := ede4After m,
-                         ans := (filterUpstreamAAAA c m.ans).1 } := by
+                         ans := (filterUpstreamAAAA c m.ans).1, ns := m.nsRRs, extra := m.extraRRs } := by
   cases hd : dispatch c q m with
   | trySynth => exact Or.inl ⟨rfl, writeMsg_trySynth c q m a hd⟩
   | passNative s => cases s <;> simp [writeMsg, hd]
@@ -387,7 +444,7 @@ theorem serve_cases (c : Cfg) (q : Query) (down : Option Down) (a : AResp) :
     serve c q down a = { kind := .none } ∨
     (∃ m, down = some m ∧ serve c q down a = passReply m) ∨
     (gate c q = .ptr ∧ ∃ addr v4, parseIP6ArpaName (canonical q.qname) = some addr ∧ ptrV4 c addr = some v4 ∧
-      serve c q down a = ptrReply "0" v4 a) ∨
+      serve c q down a = ptrReply q "0" v4 a) ∨
     (gate c q = .wrap ∧ ∃ m, down = some m ∧ serve c q down a = writeMsg c q m a) := by
   have nextOK : (match down with | none => ({ kind := .none } : Reply) | some m => passReply m) = { kind := .none } ∨
       (∃ m, down = some m ∧ (match down with | none => ({ kind := .none } : Reply) | some m => passReply m) = passReply m) := by
@@ -430,10 +487,10 @@ theorem serve_cases (c : Cfg) (q : Query) (down : Option Down) (a : AResp) :
     | none => exact Or.inl rfl
     | some m => exact Or.inr (Or.inr (Or.inr ⟨trivial, m, rfl, rfl⟩))
 
-theorem ptrReply_props (qt : String) (v4 : IP) (a : AResp) :
-    (ptrReply qt v4 a).kind ≠ .synth ∧ (ptrReply qt v4 a).kind ≠ .pass ∧ (ptrReply qt v4 a).ad = false ∧
-    (∀ r ∈ (ptrReply qt v4 a).ans, r.kind ≠ '6') ∧
-    ((ptrReply qt v4 a).kind = .ptr → (ptrReply qt v4 a).ans.head? =
+theorem ptrReply_props (q : Query) (qt : String) (v4 : IP) (a : AResp) :
+    (ptrReply q qt v4 a).kind ≠ .synth ∧ (ptrReply q qt v4 a).kind ≠ .pass ∧ (ptrReply q qt v4 a).ad = false ∧
+    (∀ r ∈ (ptrReply q qt v4 a).ans, r.kind ≠ '6') ∧
+    ((ptrReply q qt v4 a).kind = .ptr → (ptrReply q qt v4 a).ans.head? =
       some { kind := 'c', ttl := 600, owner := qt, target := "x:" ++ String.ofList (inAddrArpa v4) }) := by
   unfold ptrReply
   cases a.err <;> simp only
